@@ -20,7 +20,9 @@ pub fn parse_iso_literals<TCompilationProfile: CompilationProfile>(
     // fully rewrite everything to be incremental.
     let mut contains_iso = ParsedIsoLiteralsMap::default();
     let mut iso_literal_parse_errors = vec![];
-    for (relative_path, iso_literals_source_id) in db.get_iso_literal_map().tracked().0.iter() {
+    for (relative_path, iso_literals_source_id) in
+        db.get_iso_literal_map().tracked().iter_sorted_by_path()
+    {
         for literal in parse_iso_literal_in_source(db, *iso_literals_source_id)
             .to_owned()
             .note_todo("Do not clone. Use a MemoRef.")
